@@ -81,7 +81,7 @@ class Engine:
             s.hooks['@_Z18rapidhash_internalPKvmmPKm'] = const_hash
         s.known = known or []          # known findings: list of dict(assert=regex, when={name: value})
         s.fn_steps = collections.Counter()
-        s.work = []
+        s.work = []; s.forker = None; s.results = []
 
     # ---- memory
     def reset(s):
@@ -147,7 +147,8 @@ class Engine:
         ow = s.owner
         for b in range(addr, addr + size):
             o = ow.get(b)
-            if o is not None and o in s.cells: s.explode(o)
+            if o is not None and o in s.cells and s.cells[o][0] != 1: s.explode(o)
+        for b in range(addr, addr + size): s.cells.pop(b, None)      # the new cell replaces every byte cell it covers
         s.cells[addr] = (size, val)
         for b in range(addr, addr + size): ow[b] = addr
     def load(s, addr, size):
@@ -511,7 +512,13 @@ class Engine:
             opts = options_fn()
             if not opts: raise PathEnd('infeasible')
             val, con, mdl = opts[0]
-            for alt in opts[1:]: s.work.append(s.trace + [alt[0]])
+            forker = s.forker
+            for alt in opts[1:]:
+                role = forker.try_fork(s) if forker is not None else None
+                if role == 'child':
+                    # continue this very execution with the alternative (no re-execution of the prefix)
+                    val, con, mdl = alt; break
+                if role != 'parent': s.work.append(s.trace + [alt[0]])       # no process available: explore it later by re-execution
             s.model = mdl
             s.stats['decisions'] += 1
         s.trace.append(val)
@@ -768,6 +775,9 @@ class Engine:
             c = s.icmp(pred, t, args[0], args[1])
             if is_sym(c): return z3.If(c, bv(args[0], n), bv(args[1], n))
             return args[0] if c else args[1]
+        if name.startswith(('llvm.usub.sat', 'llvm.uadd.sat')):
+            a, b = [s.concretize(x, n) for x in args[:2]]; M = (1 << n) - 1
+            return max(0, a - b) if 'usub' in name else min(M, a + b)
         if name.startswith('llvm.expect'): return args[0]
         if name.startswith('llvm.abs'):
             v = s.concretize(args[0], n); return abs(sx(v, n)) & ((1 << n) - 1)
@@ -839,6 +849,15 @@ class Engine:
             vs = byname.get(name)
             if not vs or len(vs) < 2: return None
             conj.append(z3.Or(*[z3.And(z3.Or(*[vs[i] == w for w in first]), z3.Or(*[vs[i + 1] == w for w in second])) for i in range(len(vs) - 1)]))
+        for rd in kf.get('rounds', []):                           # some round r: occurrence r*stride+off of the named nondet == val for every (off, val)
+            vs = byname.get(rd['name']); st = rd['stride']
+            if not vs: return None
+            alts = []
+            for r in range(0, len(vs) // st + 1):
+                if all(r * st + int(off) < len(vs) for off in rd['when']):
+                    alts.append(z3.And(*[vs[r * st + int(off)] == val for off, val in rd['when'].items()]))
+            if not alts: return None
+            conj.append(z3.Or(*alts))
         return z3.And(*conj) if conj else z3.BoolVal(True)
     def report(s, msg, cond_false=None):
         """record a violation: msg, with cond_false the z3 condition under which it happens (None = unconditionally on this path)"""
